@@ -716,7 +716,7 @@ int main(int argc, char **argv) {
         X->deaths++; X->violations++;
         char rep[1400]; int o = snprintf(rep, sizeof rep, "%s", CASE); sched_str(rep + o, sizeof rep - o, X->cur_prefix, X->cur_len);
         char sig[200], cd[200]; int code = WIFEXITED(st) ? WEXITSTATUS(st) : -1;
-        if (code == 91) snprintf(sig, sizeof sig, "C04:deadlock");
+        if (code == 91) snprintf(sig, sizeof sig, !strcmp(PROP, "C14") ? "C14:lwork:deadlock" : !strcmp(PROP, "C08") ? "C08:deadlock:refactor" : "C04:deadlock");     /* a hang is no "info > n" either (C14) and no result at all (C08) */
         else if (code == 92) snprintf(sig, sizeof sig, "C04:runaway");
         else if (code == 93) snprintf(sig, sizeof sig, "machinery:replay-divergence");
         else { int kind = WIFSIGNALED(st) ? VF_SIGNAL : code == 99 ? VF_ASAN : code == 98 ? VF_FAULT : code == 97 ? VF_TIMEOUT : VF_EXIT; vf_crash_desc(kind, WIFSIGNALED(st) ? WTERMSIG(st) : code, cd, sizeof cd);
